@@ -205,9 +205,7 @@ def cmd_check(args):
             real.append(f)
 
     out_lines = []
-    for k, f in knownhits:
-        out_lines.append('KNOWN-FINDING: property=%s %s [%s %s.%s]' % (prop, k['desc'], k['obligation'], f['unit'], f['cfg']))
-    for f in real:
+    def write_replay(f, known=None):
         tag = (f['tags'] or ['untagged'])[0]
         rp = os.path.join(replay_dir, '%s-%s-%s-%s-L%d.json' % (prop, f['unit'], f['cfg'], tag, f['line']))
         wit = None
@@ -219,7 +217,15 @@ def cmd_check(args):
         with open(rp, 'w') as fh:
             json.dump(dict(property=prop, obligation=f['tags'], unit=f['unit'], config=f['cfg'], function=f['fn'],
                            source=f['src'], verifier='verus', verifier_message=f['message'], verifier_output=f['rendered'],
-                           generated_file=f['genfile'], generated_line=f['line'], witness=wit), fh, indent=1)
+                           generated_file=f['genfile'], generated_line=f['line'], known_finding=known, witness=wit), fh, indent=1)
+        return rp, wit
+
+    for k, f in knownhits:
+        rp, wit = write_replay(f, known=k['desc'])
+        out_lines.append('KNOWN-FINDING: property=%s %s [%s %s.%s] replay=%s%s' % (
+            prop, k['desc'], k['obligation'], f['unit'], f['cfg'], rp, '' if (wit and wit.get('found')) else ' no-failing-input-found'))
+    for f in real:
+        rp, wit = write_replay(f)
         suffix = '' if (wit and wit.get('found')) else ' no-failing-input-found'
         out_lines.append('VIOLATION property=%s replay=%s%s' % (prop, rp, suffix))
 
